@@ -20,6 +20,15 @@ from .image import mk_image, _arr
 
 # ---- parity of an image: carried by its (opaque) WCS -------------------------------------------------
 
+def _venv(interp):
+    """environment of the function under verification (also when the current frame is an inlined helper)"""
+    for f_ in reversed(interp.frames):
+        if getattr(f_, "env", None) is not None:
+            return f_.env
+    from pyvc.interp import Env
+    return Env(module=interp.frame.module if interp.frame is not None else None)
+
+
 def _parity_model(interp, env):
     """call-site behaviour of _wcs_to_parity_sign = its contract (contracts/parity.py, C16)"""
     wcs = env.lookup("wcs")
@@ -90,7 +99,7 @@ class TanPlugin(object):
 def make_item(interp):
     case = interp._case
     tiling = _study._fresh_tiling(interp, "sub_tiling")
-    interp.path.assume(interp.spec(_study.INV.replace("self.", "t."), interp.frame.env, extra={"t": tiling}))
+    interp.path.assume(interp.spec(_study.INV.replace("self.", "t."), _venv(interp), extra={"t": tiling}))
     image = mk_image(interp, "image", case["mode"], tiling.fields["_height"], tiling.fields["_width"])
     wcs = Opaque("wcs", fresh_name("wcs"))
     wcs.attrs["_g_parity"] = case["image_parity"]
